@@ -32,7 +32,9 @@ func header(in string) bool {
 	p, e := in[:len(in)-1], in[len(in)-1]
 	switch e {
 	case '.', ':', ')':
-		if listMarker[p] {
+		// Normalize tokenizes without lower-casing the first rune of a word, so
+		// compare the marker case-insensitively to drop the same markers as Match.
+		if listMarker[strings.ToLower(p)] {
 			if e != ')' {
 				return true
 			}
